@@ -51,6 +51,8 @@ pub struct Sent {
     pub client: usize,
     pub group: usize,
     pub bytes: Vec<u8>,
+    /// the value the sender encoded (for round-trip checks)
+    pub msg: Message,
 }
 
 #[derive(Clone, Debug)]
@@ -317,9 +319,9 @@ impl WorldA {
         let bytes = ctx.os.with_node(node as u64, || {
             let mg = MessageGenerator::new(SingleMeasurement::new(&g.measurement), g.threshold, &g.epoch);
             let m = Message::generate(&mg, &rnd, aux.as_ref().map(|a| AssociatedData::new(a))).map_err(|e| e.to_string())?;
-            Ok::<Vec<u8>, String>(m.to_bytes())
+            Ok::<(Vec<u8>, Message), String>((m.to_bytes(), m))
         });
-        let bytes = match bytes {
+        let (bytes, msg) = match bytes {
             Ok(b) => b,
             Err(e) => {
                 return Err(Violation::new("a.generate_failed", "generate", format!("client {} could not generate a report: {}", c, e)));
@@ -328,7 +330,7 @@ impl WorldA {
         self.clients[c].reported = true;
         self.clients[c].rnd = Some(rnd);
         let id_preview = self.net_peek_id(node);
-        let s = Sent { id: id_preview, client: c, group: g.id, bytes: bytes.clone() };
+        let s = Sent { id: id_preview, client: c, group: g.id, bytes: bytes.clone(), msg };
         ev!(ctx, "t={} client {} (group {}) reports {}B aux={}", self.sim.now, c, g.id, bytes.len(), match &aux { None => "none".to_string(), Some(a) => format!("{}B", a.len()) });
         oracle.on_sent(ctx, self, &s)?;
         self.sent.insert(s.id, s);
